@@ -651,6 +651,40 @@ pub fn run(seed: u64, shard: u64, sequences: usize, exotic: bool) -> Report {
                 );
             }
         }
+        // ---- a server that does not resolve versions (the default) looks every request up
+        // with "no version", which matches every range: two generations of one method+path
+        // would both match.  Building such a server must therefore be refused, whatever the
+        // order the endpoints were registered in.
+        let siblings = table.iter().enumerate().any(|(i, a)| {
+            table[i + 1..].iter().any(|b| a.method == b.method && unifiable(&a.segs, &b.segs) && !a.range.intersects(&b.range))
+        });
+        if versioned && siblings {
+            let mut orders: Vec<Vec<RegCase>> = vec![accepted.clone()];
+            let mut all_last = accepted.clone();
+            all_last.sort_by_key(|c| c.ep.range.is_all());
+            orders.push(all_last);
+            let mut rev = accepted.clone();
+            rev.reverse();
+            orders.push(rev);
+            for (oi, ord) in orders.iter().enumerate() {
+                let Ok(api) = build(ord, &pol) else { continue };
+                let ctx = crate::srv::Ctx::new(crate::evlog::EvLog::new());
+                let cfg = crate::srv::SrvCfg { workers: 1, ..Default::default() };
+                rep.count("unversioned_server_start_attempts", 1);
+                match crate::srv::start(api, ctx, &cfg) {
+                    Err(_) => {}
+                    Ok(mut srv) => {
+                        let _ = srv.close();
+                        rep.violate(
+                            "C02:unversioned-server-accepts-two-generations-of-one-route",
+                            json!({"registration_order": ord.iter().map(case_json).collect::<Vec<_>>(), "order_kind": (["as accepted", "unrestricted endpoints last", "reversed"][oi]),
+                                   "table": table_json(&table)}),
+                        );
+                        break;
+                    }
+                }
+            }
+        }
     }
     rep
 }
